@@ -354,7 +354,7 @@ Fixpoint schc_decompress (ct : compute_table) (ctxs : list context) (packet : bi
   match ctxs with
   | [] => Ok packet
   | c :: cs =>
-    match cm_decompress ct (ctx_rules c) packet None with
+    match cm_decompress ct (ctx_rules c) packet (Some Up) with
     | Exc RuleIDMatchError => schc_decompress ct cs packet
     | r => r
     end
